@@ -54,8 +54,32 @@ pub fn gen_val_len(r: &mut Rng, kind: ColKind, big_max: u32) -> u32 {
 	}
 }
 
+thread_local! {
+	/// Per-run palette of value lengths (swarm): most values of a run reuse a few lengths so that
+	/// freed slots of a size tier get reused and overwrite cycles return to the same sizes.
+	static PALETTE: std::cell::RefCell<Vec<u32>> = std::cell::RefCell::new(Vec::new());
+}
+
+fn set_palette(r: &mut Rng, kind: ColKind, big_max: u32) {
+	let n = *r.pick(&[0usize, 2, 3, 5, 8, 16]);
+	let v: Vec<u32> = (0..n).map(|_| gen_val_len(r, kind, big_max)).collect();
+	PALETTE.with(|p| *p.borrow_mut() = v);
+}
+
 fn gen_val(r: &mut Rng, kind: ColKind, big_max: u32) -> ValSpec {
-	ValSpec { len: gen_val_len(r, kind, big_max), seed: r.next(), compressible: r.chance(1, 2) }
+	let from_palette = PALETTE.with(|p| {
+		let p = p.borrow();
+		if !p.is_empty() && r.chance(4, 5) {
+			Some(p[r.below(p.len() as u64) as usize])
+		} else {
+			None
+		}
+	});
+	let len = match from_palette {
+		Some(l) => l,
+		None => gen_val_len(r, kind, big_max),
+	};
+	ValSpec { len, seed: r.next(), compressible: r.chance(1, 2) }
 }
 
 fn key_with(id: u32, len: usize, fill: u8) -> Vec<u8> {
@@ -285,6 +309,7 @@ pub fn gen(scenario: &str, tier: Tier, seed: u64) -> (RunCfg, Vec<Op>) {
 	let big_max: u32 = if quick { 70_000 } else if r.chance(1, 10) { 3_000_000 } else { 140_000 };
 	let faulty = matches!(scenario, "crash" | "power" | "drop" | "logfuzz" | "ioerr");
 	let long_keys = r.chance(1, 40);
+	set_palette(&mut r, kinds[0], big_max);
 	let mut cols = Vec::new();
 	for k in &kinds {
 		let nkeys = match scenario {
